@@ -127,7 +127,7 @@ func budget(tier string) int {
 	if tier == "thorough" {
 		return 300
 	}
-	return 60
+	return 90
 }
 
 func seed() int {
